@@ -25,12 +25,13 @@ type State struct {
 	guard *Term
 	cells map[*ssa.Alloc]*Term
 	heap  map[string]*Term
+	obsEpoch int     // number of observer calls so far (cache/ID components first read later are fresh per epoch)
 	epoch  string    // heap epoch: components not in heap are the constants H<epoch>_<name>
 	splits [][]*Term // guards of the states merged at each join since the last cut point (case-split hints)
 }
 
 func (s *State) clone() *State {
-	n := &State{guard: s.guard, cells: make(map[*ssa.Alloc]*Term, len(s.cells)), heap: make(map[string]*Term, len(s.heap)), splits: s.splits, epoch: s.epoch}
+	n := &State{guard: s.guard, cells: make(map[*ssa.Alloc]*Term, len(s.cells)), heap: make(map[string]*Term, len(s.heap)), splits: s.splits, epoch: s.epoch, obsEpoch: s.obsEpoch}
 	for k, v := range s.cells {
 		n.cells[k] = v
 	}
@@ -192,6 +193,12 @@ func (fx *FnExec) heapGet(st *State, name string, s Sort) *Term {
 	ep := st.epoch
 	if ep == "" {
 		ep = "0"
+	}
+	if st.obsEpoch > 0 && (idFieldRe.MatchString(name) || strings.HasPrefix(name, "G_")) {
+		// possibly written by an earlier observer call: unknown, but stable from now on
+		t := fx.c.Fresh("obs"+fmt.Sprint(st.obsEpoch)+"_"+name, s)
+		st.heap[name] = t
+		return t
 	}
 	return fx.c.Const("H"+ep+"_"+name, s)
 }
@@ -1002,6 +1009,11 @@ func (fx *FnExec) mergeStates(ins []*State) *State {
 	for _, s := range ins {
 		for k, v := range s.heap {
 			hn[k] = v.S
+		}
+	}
+	for _, s := range ins {
+		if s.obsEpoch > st.obsEpoch {
+			st.obsEpoch = s.obsEpoch
 		}
 	}
 	st.epoch = ins[0].epoch
